@@ -35,6 +35,9 @@ type Interp struct {
 	Invokes map[string]Model // by types.Func.FullName() of interface methods
 	// PhiOverride replaces the value of a loop-header phi (key "Func:comment") on loop entry.
 	PhiOverride map[string]Val
+	// ValueOverride replaces the value an instruction computes (a quantity the driver keeps symbolic, e.g. a
+	// tweak derived from a position).
+	ValueOverride map[ssa.Value]Val
 	// HavocPhi, when set, is asked for the entry value of every loop-header phi
 	// (on the forward edge into the loop); returning ok replaces the initial
 	// value, which models "the loop is at an arbitrary iteration": state
@@ -265,6 +268,14 @@ func (in *Interp) block(fr *frame, b *ssa.BasicBlock) (next *ssa.BasicBlock, ret
 		in.steps++
 		if in.steps > in.MaxSteps {
 			return nil, nil, false, undecided("step budget exceeded in %s", fr.fn.Name())
+		}
+		if in.ValueOverride != nil {
+			if v, isVal := ins.(ssa.Value); isVal {
+				if ov, ok := in.ValueOverride[v]; ok {
+					fr.env[v] = ov
+					continue
+				}
+			}
 		}
 		switch i := ins.(type) {
 		case *ssa.Phi:
